@@ -77,8 +77,15 @@ def run(tier):
             rep.fail('R19.c', 'parseProbe|never-links', 'no path links an observation (growth guard cannot be examined)', file='lltdResponder/lltdBlock.c', function='parseProbe')
     # Reset cell
     fs = FrameSetup(prog, mtu_ok=True)
+    fs.keep_iter_states = True
     r2, o2, s2 = run_regions(fs, regions=['topo.rest'], jobs=1)
     nreset = 0
+    from .frame_common import effects
+    from .c07 import cursor_null_at_exit
+    from ..terms import ZERO as _Z
+    from .. import mem as _mem
+    from ..terms import C as _C
+    loops = (s2.get('topo.rest') or {}).get('loops') or {}
     for st, ret in r2['topo.rest']:
         if st.dom(('in', 'frame', 17)).const() != 8 or any(e[0] == 'malloc-failed' for e in st.trace):
             continue
@@ -86,6 +93,29 @@ def run(tier):
         live = live_heap(fs, st)
         rep.check(not live, 'R19.d', 'reset|live', 'after a topology Reset %s remain allocated' % live, file='lltdResponder/lltdBlock.c', function='parseFrame',
                   sample={'live_after_reset': live})
+        # the observations are one summary node to the heap model: "all of them released" is decided on the release loop - the
+        # list head is dropped (NULL) only after the loop was left with its cursor NULL, i.e. because the list ended, not because a
+        # counter or guard ran out first (the nodes behind the cursor would be unreachable and stay allocated for ever)
+        rel = [l for l in sorted(set(c[-1][1] for e, c in effects(st, 'free') if e[1] == 'SEEN' and c and c[-1][0] == 'loop')) if l in loops]
+        if rel:
+            head_after = st.canon(_mem.load_scalar(st, st.objs['st'], _C(fs.soff('see_list')), fs.ix.parse_type('void *')))
+            def left_at_list_end(l):
+                # left by `break` / `return` with a pointer local of the releasing function NULL (`if (head == NULL) break;`)
+                for how in ('break', 'return'):
+                    v = st.tags.get('left-by-%s:%s' % (how, l))
+                    if isinstance(v, tuple) and any(str(x).startswith('L:%s' % l.split('#')[0]) for x in v):
+                        return True
+                    if v:
+                        # ... or with the record's own list head NULL (the loop pops from the front of st->see_list)
+                        outs_ = [s_ for kind, _tr, s_ in (loops[l].get('iter_states') or []) if kind == how]
+                        if outs_ and all('st' in s_.objs and s_.canon(_mem.load_scalar(s_, s_.objs['st'], _C(fs.soff('see_list')), fs.ix.parse_type('void *'))) == _Z
+                                         for s_ in outs_):
+                            return True
+                return False
+            okc = head_after != _Z or any(left_at_list_end(l) for l in rel) or cursor_null_at_exit(st, loops, rel)
+            rep.check(okc, 'R19.d', 'reset|release-loop-exit', 'the loop that releases the observations on a topology Reset (%s) can be left while its cursor still points into the '
+                      'list (a bound or guard ran out first); the list head is cleared all the same: the remaining nodes are unreachable and never freed' % ', '.join(rel),
+                      file='lltdResponder/lltdBlock.c', function='parseFrame')
     if not nreset:
         rep.broke('no Reset path found')
     rep.analysed.update({'allocation_sites': sites, 'sites_reached_from_parseFrame': sorted(seen_sites)})
